@@ -31,7 +31,10 @@ ASSUMPTIONS = ['an item counts as accepted when parse_item leaves .error None AN
                'round trips follow server.monitor.check_theory: printing under the extended theory (unicode on, highlight off), '
                'parsing under a copy of the theory taken after parse_item and before the extension; JSON and editor forms pass '
                'through json.dumps/loads; for datatypes the editor form is additionally parsed under the theory as it was before parse_item',
-               'the conservativity conditions are demanded only of kind `def`; all other kinds are judged by O2 and O3 only',
+               'the conservativity conditions are demanded only of kind `def`; all other kinds are judged by O2 and O3 only; '
+               'an item already flagged by O1 or O2 is not judged by O3 (one root cause, one report)',
+               'mechanism keys of findings on items of the library carry the prefix library: (a finding there is a regression, '
+               'never the same finding as one on hostile input)',
                'generated text is fully parenthesised and avoids the operator nestings on which printer and grammar are known to '
                'disagree (C07 findings), so that O3 judges the item machinery and not the term printer']
 REQUIRED = {'quick': {'library_items_accepted': 4000, 'library_defs_judged': 140, 'library_theories': 43,
@@ -135,7 +138,6 @@ class Driver:
         ctx, c = self.ctx, self.ctx.count
         ty = raw.get('ty')
         thy0 = copy.copy(theory.thy)
-        live = theory.thy
         try:
             with quiet():
                 item = items.parse_item(copy.deepcopy(raw))
@@ -169,6 +171,7 @@ class Driver:
 
         # ---------------- O1
         fields = O.item_fields(item)
+        o1_flagged = False
         if ty == 'def':
             probs = O.definition_problems(self.sig, fields['name'], fields['type'], fields['prop'])
             c('O1_definitions_judged')
@@ -179,6 +182,7 @@ class Driver:
                     name, S.ty_str(fields['type']), S.tm_str(fields['prop'])[:300], text), witness, raw)
             if not probs:
                 c('O1_definitions_conservative')
+            o1_flagged = bool(probs)
 
         # ---------------- O2
         rexts = O.read_exts(exts)
@@ -198,8 +202,8 @@ class Driver:
             self.violation('ext:%s:%s%s' % (ty, key, tag), 'accepted item %s generates an ill-formed extension: %s' % (what, text), witness, raw)
 
         # ---------------- O3
-        if seen:
-            c('O3_skipped_extension_already_ill_formed')     # one root cause, one report: the item should not have been accepted
+        if seen or o1_flagged:
+            c('O3_skipped_item_already_flagged')     # one root cause, one report: the item should not have been accepted
             theory.thy = new_thy
             return 'accepted'
         f0 = norm_fields(fields)
